@@ -172,21 +172,21 @@ fn expected(kind: &str, rules_on: bool, outcome: &Result<String, String>) -> boo
 /// Wait until the endpoint has settled after the clients of a section are gone: every accepted
 /// connection has finished its peek, every gauge the section raised is back, and no hook event has
 /// been recorded for a while. Bounded: a connection that never settles is the trace's business.
-fn settle(collected: &mut Vec<String>) {
+fn settle(collected: &mut Vec<String>, section: &mut usize) {
     let t0 = std::time::Instant::now();
     let mut last_change = std::time::Instant::now();
     loop {
         let new = verif::drain_events();
         if !new.is_empty() { last_change = std::time::Instant::now(); collected.extend(new); }
         let mut accepted = 0i64; let mut peeked = 0i64; let mut gauge = 0i64;
-        for l in collected.iter() {
+        for l in collected[*section..].iter() {
             if l.contains("\"ev\":\"Accepted\"") { accepted += 1; }
             else if l.contains("\"ev\":\"PeekDone\"") { peeked += 1; }
             else if l.contains("\"ev\":\"Gauge\"") { if l.contains("\"delta\":1") { gauge += 1; } else { gauge -= 1; } }
         }
         let balanced = gauge == 0 && (peeked >= accepted || t0.elapsed() > Duration::from_secs(3));
         let quiet = last_change.elapsed() >= Duration::from_millis(350);
-        if (balanced && quiet && t0.elapsed() >= Duration::from_millis(350)) || t0.elapsed() > Duration::from_secs(10) { return; }
+        if (balanced && quiet && t0.elapsed() >= Duration::from_millis(350)) || t0.elapsed() > Duration::from_secs(10) { *section = collected.len(); return; }
         std::thread::sleep(Duration::from_millis(25));
     }
 }
@@ -246,6 +246,7 @@ fn main() {
             Core::new(settings, Some(auth), hosts, Shutdown::new()).expect("core")
         });
         let mut collected: Vec<String> = vec![];
+        let mut section = 0usize;
         verif::start_recording();
         // the builder always installs a rules engine (default: allow all); `rules_on` only adds deny rules
         let canon = if dual { "{\"::ffff:127.0.0.1\":\"127.0.0.1\",\"::ffff:127.0.0.70\":\"127.0.0.70\",\"::1\":\"::1\"}" } else { "{\"127.0.0.1\":\"127.0.0.1\",\"127.0.0.70\":\"127.0.0.70\"}" };
@@ -263,7 +264,7 @@ fn main() {
                 rep.violation_with(format!("endpoint:client-view:{}:{}{}", kind, if rules_on { "rules" } else { "norules" }, if dual { ":dual" } else { "" }), format!("client saw {:?}", outcome), || json!({"kind": kind, "rules": rules_on, "dual": dual}));
             }
             // let the endpoint settle, then close the connection's section of the trace
-            settle(&mut collected);
+            settle(&mut collected, &mut section);
             verif::emit("ConnEnd", format_args!("\"kind\":\"{}\"", kind));
         }
         collected.extend(verif::stop_recording());
@@ -279,6 +280,7 @@ fn main() {
         // concurrent waves (EndpointN.tla): `width` clients of random kinds at the same time
         if let Some(tn) = trace_n.as_mut() {
             verif::start_recording();
+            section = 0;
             verif::emit("Config", format_args!("\"rules\":true,\"deny_rules\":{},\"dual\":{},\"canon\":{}", rules_on, dual, canon));
             for _ in 0..waves {
                 let picks: Vec<&'static str> = (0..width).map(|_| kinds[rng.gen_range(0..kinds.len())]).collect();
@@ -299,7 +301,7 @@ fn main() {
                         rep.violation_with(format!("endpoint:client-view:{}:{}{}:concurrent", k, if rules_on { "rules" } else { "norules" }, if dual { ":dual" } else { "" }), format!("client saw {:?}", outcome), || json!({"kind": k, "rules": rules_on, "dual": dual, "wave": picks}));
                     }
                 }
-                settle(&mut collected);
+                settle(&mut collected, &mut section);
                 verif::emit("WaveEnd", format_args!("\"n\":{}", width));
             }
             collected.extend(verif::stop_recording());
